@@ -240,13 +240,13 @@ package limiter
 //@   owns[C17]
 
 //@ func (*queue).evictionFunc
-//@   ensures[C12] closure: isfunc(result, "(*limiter.queue).evictionFunc$1") && *captured(result, "(*limiter.queue).evictionFunc$1", 0) == q && *captured(result, "(*limiter.queue).evictionFunc$1", 1) == e
+//@   ensures[C11,C12] closure: isfunc(result, "(*limiter.queue).evictionFunc$1") && *captured(result, "(*limiter.queue).evictionFunc$1", 0) == q && *captured(result, "(*limiter.queue).evictionFunc$1", 1) == e
 //@   assigns nothing
 
 //@ func (*queue).evictionFunc$1
 //@   requires objs: q != nil && inv(q)
-//@   ensures[C12] removed: !lmember(q.list, e)
-//@   ensures[C12] others_stay: forall o ref :: o != ref(e) ==> lmember(q.list, o) == old(lmember(q.list, o))
+//@   ensures[C11,C12] removed: !lmember(q.list, e)
+//@   ensures[C11,C12] others_stay: forall o ref :: o != ref(e) ==> lmember(q.list, o) == old(lmember(q.list, o))
 //@   ensures[C12] length: llen(q.list) == ite(old(lmember(q.list, e)), old(llen(q.list)) - 1, old(llen(q.list)))
 //@   ensures[C12,C17] under_write_lock: calledUnder("(*container/list.List).Remove", 0, q.mu)
 //@   owns[C17]
@@ -258,7 +258,7 @@ package limiter
 //@   ensures[C11] newest: lmember(q.list, qPushed()) && (forall o ref :: old(lmember(q.list, o)) ==> lmember(q.list, o) && lstamp(o) < lstamp(qPushed()))
 //@   ensures[C02,C12,C19] waiter_record: dyntype(callarg("(*container/list.List).PushFront", 0, 0), "*limiter.queueElement") && as(callarg("(*container/list.List).PushFront", 0, 0), "*limiter.queueElement").ctx == ctx && as(callarg("(*container/list.List).PushFront", 0, 0), "*limiter.queueElement").releaseChan == ret1 && fresh(ret1) && chancap(ret1) == 0
 //@   ensures[C12] evict_closure: isfunc(ret0, "(*limiter.queue).evictionFunc$1") && *captured(ret0, "(*limiter.queue).evictionFunc$1", 0) == q && lmember(q.list, peeked(ret0))
-//@   ensures[C12] evict_removes_it: ref(*captured(ret0, "(*limiter.queue).evictionFunc$1", 1)) == qPushed()
+//@   ensures[C11,C12] evict_removes_it: ref(*captured(ret0, "(*limiter.queue).evictionFunc$1", 1)) == qPushed()
 //@   owns[C17]
 //@   assigns listof(q.list)
 //@ define qPushed() ref = ref(callres("(*container/list.List).PushFront", 0, 0))
